@@ -72,6 +72,7 @@ func (p *P) Init(env *core.Env) error {
 	if len(poolTable) == 0 {
 		return fmt.Errorf("empty pool table (generator found no getters in pkg/sql/ast/pool.go)")
 	}
+	ops.SetScratch(env.Scratch)
 	ops.WarmUp()
 	simhook.PurgeAll()
 	ctl := &pool.Ctl{Mode: pool.AlwaysMiss}
@@ -441,7 +442,7 @@ type taskState struct {
 
 var holdKinds = []ops.Kind{ops.TokenizeDirect, ops.TokenizePooled, ops.Parse, ops.ParseCtx, ops.ParseMultiple, ops.ParseRecovery,
 	ops.ParserParseBytes, ops.ParserParseBytesWithTokens, ops.ParserDialect, ops.TreeSQL, ops.Extract, ops.ScanSQL, ops.ScanTree, ops.Lint, ops.Format, ops.FormatterFormat,
-	ops.ParserStrict, ops.ParserPooledOptions, ops.ParserPositions, ops.Validate, ops.ValidateMultiple, ops.ParserValidate, ops.ParseCtxCancelled, ops.TransformFromSQL}
+	ops.ParserStrict, ops.ParserPooledOptions, ops.ParserPositions, ops.Validate, ops.ValidateMultiple, ops.ParserValidate, ops.ParseCtxCancelled, ops.TransformFromSQL, ops.ConfigLoad}
 
 func ptrOf(v any) uintptr {
 	rv := reflect.ValueOf(v)
